@@ -35,7 +35,6 @@ def live_step(ro, msg_xml, history, as_bytes=False, route=None):
     ev.obs = step.run_step(before, msg_xml.encode('utf-8') if as_bytes else msg_xml, ro_obj=ro,
                            via_merge=(h64(msg_xml) % 2 == 0) if route is None else (route == 'merge'))
     if ev.obs.parse_exc is None and ev.msg.kind is not None and ev.obs.cls_name != ev.msg.kind:
-        ev.ex = model.Expect()
         ev.ex.note = 'class-mismatch'
     return ev
 
@@ -106,7 +105,7 @@ def shrink_history(case, still_fails):
 
 
 def make_machine(mod, col, kinds=None, faults='some', rich=True, degenerate=True,
-                 timing_mode='any', max_stories=5, on_state=None, simple_ids=False):
+                 timing_mode='any', max_stories=5, on_state=None, simple_ids=False, foreign_ro=True):
     kinds = list(kinds or DEFAULT_KINDS)
 
     class History(RuleBasedStateMachine):
@@ -142,7 +141,7 @@ def make_machine(mod, col, kinds=None, faults='some', rich=True, degenerate=True
                 _kind, msg_xml = data.draw(gen.message(
                     state, self.ro_id, kinds=kinds, faults=faults, rich=rich, mid=self.mid,
                     degenerate=degenerate, timing_mode=timing_mode,
-                    stale_s=self.seen_s, stale_i=[i for i in self.seen_i if True]))
+                    stale_s=self.seen_s, stale_i=[i for i in self.seen_i if True], foreign_ro=foreign_ro))
             except (IndexError, KeyError, ValueError, AssertionError, TypeError, AttributeError):
                 # a corrupted state (e.g. duplicate IDs produced by a defective tree) can be
                 # outside what the message generator handles: skip the step, keep the run
